@@ -140,6 +140,17 @@ def run(repo, rep, tier):
     s = U(ce).replace(" ", "").replace("\n", "")
     ok = "ifenabledisnotNone:table_info.super.caption_hidden=notenabledreturnNone" in s and "returnnottable_info.super.caption_hidden" in s
     rep.ob("C16.R2", ce, "caption_enabled: stored as the logical inverse (caption_hidden) both ways", ok, "" if ok else "visibility is inverted on one side only", key="C16.R2@caption_enabled")
+    writers = []
+    for rel in ("model.py", "document.py"):
+        for fn in [x for x in ast.walk(repo.tree(rel)) if isinstance(x, ast.FunctionDef)]:
+            for n in body_walk(fn):
+                tg = n.targets if isinstance(n, ast.Assign) else ([n.target] if isinstance(n, (ast.AugAssign, ast.AnnAssign)) else [])
+                if any(isinstance(t, ast.Attribute) and t.attr == "caption_hidden" for t in tg):
+                    writers.append((fn.name, n))
+    extra = [(w, n) for w, n in writers if w != "caption_enabled"]
+    rep.ob("C16.R2", extra[0][1] if extra else ce, f"caption visibility is written only by caption_enabled (writers: {sorted({w for w, _ in writers})})", not extra,
+           "" if not extra else f"{extra[0][0]} also sets caption_hidden: creating or editing the caption text changes the visibility that was set through the API",
+           key="C16.R2@caption_hidden:writers")
     ct = repo.func("model.py", "_NumbersModel.caption_text")
     s = U(ct).replace(" ", "").replace("\n", "")
     ok = "ifcaptionisnotNone:clear_field_container(self.objects[caption_storage_id].text)self.objects[caption_storage_id].text.append(caption)returnNone" in s \
@@ -230,6 +241,7 @@ VARIANTS = [
     M("read-after-clear", "model.py",
       "        current_row_heights = {}\n        for row in range(len(data)):\n            current_row_heights[row] = self.row_height(table_id, row)\n\n        base_data_store = self.objects[table_id].base_data_store\n        buckets = self.objects[base_data_store.rowHeaders.buckets[0].identifier]\n        clear_field_container(buckets.headers)\n        for row in range(len(data)):\n            height = current_row_heights[row]\n",
       "        base_data_store = self.objects[table_id].base_data_store\n        buckets = self.objects[base_data_store.rowHeaders.buckets[0].identifier]\n        clear_field_container(buckets.headers)\n        for row in range(len(data)):\n            height = self.row_height(table_id, row)\n", "C16.R1"),
+    M("caption-archive-rehides", "model.py", "        self.set_reference(table_info.super.caption, caption_info_id)\n", "        self.set_reference(table_info.super.caption, caption_info_id)\n        table_info.super.caption_hidden = True\n", "C16.R2"),
     M("caption-hidden-not-inverted", "model.py", "table_info.super.caption_hidden = not enabled", "table_info.super.caption_hidden = enabled", "C16.R2"),
     M("table-name-wrong-field", "model.py", "        self.objects[table_id].table_name = value\n        return None", "        self.objects[table_id].table_name_enabled = value\n        return None", "C16.R2"),
     M("header-cols-writes-rows", "model.py", "            table_model.number_of_header_columns = num_headers", "            table_model.number_of_header_rows = num_headers", "C16.R2"),
